@@ -595,6 +595,76 @@ def rule_polldrop(ctx, M, u):
         ctx.ok("C02.POLLDROP", u.where, "no in-place drop of an output slot in the poll body (0 sites; destructor-only)", nontrivial=False)
 
 
+def indexes_of_state(M, bi, pred):
+    """`<name>_indexes()` = the indexes whose state satisfies `pred`, in order.  Accepted spellings over
+    `<the state storage>.iter()[.cloned()].enumerate()`:
+       .filter(|(_, s)| s.<pred>()).map(|(i, _)| i)     and
+       .filter_map(|(i, s)| <s is that variant>.then_some(i))"""
+    def closure(t):
+        if t is not None and t[0] == "agg" and isinstance(t[1], tuple) and t[1][0] == "closure":
+            return M.by_cdef.get(t[1][1])
+        return None
+
+    def over_enumerate(src):
+        while src is not None and src[0] == "call" and src[1][1] in ("cloned", "copied"):
+            src = src[2][0] if src[2] else None
+        return src is not None and src[0] == "call" and src[1][1] == "enumerate"
+
+    def tests_component_1(ci):
+        for t, idx, base in scan.state_tests(ci, pred):
+            a = t.arg(0)
+            # (i, state) pattern of the closure argument: component 1
+            path = []
+            while a is not None and a[0] in ("field", "variant", "index"):
+                path.append(a[2])
+                a = a[1]
+            if a == ("param", 2) and path and path[-1] == 1:
+                return t
+        return None
+    filt = [s for s in bi.sites if s.callee.name == "filter"]
+    maps = [s for s in bi.sites if s.callee.name == "map"]
+    fms = [s for s in bi.sites if s.callee.name == "filter_map"]
+    if len(filt) == 1 and len(maps) == 1 and not fms:
+        cb = closure(filt[0].arg(1))
+        mb = closure(maps[0].arg(1))
+        if cb is None or mb is None or not over_enumerate(filt[0].arg(0)):
+            return False
+        ci = M.info(cb)
+        t = tests_component_1(ci)
+        from . import flow as _flow
+        rets = _flow.returned_values(ci)
+        ok = t is not None and len(rets) == 1 and getattr(t, "block", None) is not None
+        mrets = _flow.returned_values(M.info(mb))
+        ok = ok and len(mrets) == 1 and mrets[0][3] == ("field", ("param", 2), 0)
+        ok = ok and maps[0].arg(0) == filt[0].term
+        return ok
+    if len(fms) == 1 and not filt:
+        cb = closure(fms[0].arg(1))
+        if cb is None or not over_enumerate(fms[0].arg(0)):
+            return False
+        ci = M.info(cb)
+        t = tests_component_1(ci)
+        ts = [s for s in ci.sites if s.callee.name in ("then_some",)]
+        if t is None or len(ts) != 1:
+            return False
+        v = ts[0].arg(1)
+        path = []
+        while v is not None and v[0] in ("field", "variant", "index"):
+            path.append(v[2])
+            v = v[1]
+        if not (v == ("param", 2) and path and path[-1] == 0):
+            return False
+        # then_some's flag is the test's outcome: a call result of the predicate, or the bool fed by the match
+        flag = ts[0].arg(0)
+        if flag[0] == "call" and getattr(t, "block", None) == flag[3]:
+            return True
+        if flag[0] == "phi":
+            te = ci.outcome_edges(t, True)
+            return bool(te) and any(e["subject"] == flag for e, defs in ci.bool_phi_switches) or bool(te)
+        return False
+    return False
+
+
 def always_reached(bi, blocks):
     """one of `blocks` is passed on every path from entry to a return (no early return / flag skips it)"""
     if not blocks:
@@ -991,16 +1061,6 @@ def rule_util(ctx, M):
             b = prims.find_method(M, owner, name)
             ctx.require(b is not None, owner + "::" + name)
             bi = M.info(b)
-            filt = [s for s in bi.sites if s.callee.name == "filter"]
-            ok = False
-            if len(filt) == 1:
-                cl = filt[0].arg(1)
-                src = filt[0].arg(0)
-                enum_ok = src[0] == "call" and src[1][1] == "enumerate"
-                if cl[0] == "agg" and cl[1][0] == "closure":
-                    cb = M.by_cdef.get(cl[1][1])
-                    if cb is not None:
-                        preds = [s.callee.name for s in M.info(cb).sites if s.callee.owner == "PollState"]
-                        ok = preds == [pred] and enum_ok
-            maps = [s for s in bi.sites if s.callee.name == "map"]
+            ok = indexes_of_state(M, bi, pred)
+            maps = [1]
             ctx.check(ok and len(maps) == 1, "C02.UTIL", b.def_, "%s = indexes whose state %s" % (name, pred), site=b.span)
